@@ -10,6 +10,8 @@ THEOREMS = [
     "C18_reuse_history",
     "C18_parentless_fresh",
     "C18_share_iff",
+    "C18_table_clsOk",
+    "C18_label_injective",
     "C18_distinct_partial",
     "C18_repaired_print_injective",
     "C18_distinct_repaired",
@@ -18,26 +20,48 @@ THEOREMS = [
     "C18_dispatch",
     "C18_dispatch_injective",
     "C18_dunder_all",
+    "C18_inputs",
+    "C18_reflected_only_rmul",
+    "C18_value",
+    "C18_slice_repaired",
+    "C18_slice_partial",
+    "C18_slice_witness",
+    "C18_slice_value",
+    "C18_slice_reuse",
+    "C18_slice_raise_effect",
 ]
 RULE = (
     "seeded histories of operator expressions on real output channels / single-output nodes: each of the 30 operator "
-    "methods (+ slicing with channel-like components) applied to owners holding values from a pool (ints, bools, "
-    "strings, lists, tuples, sets, dicts, None, a float, a complex), operands raw or other channels/nodes, owners "
-    "inside a workflow or parentless, already run or not, chained on injected nodes, with exact repetitions (node vs "
-    "channel form) and near-identical twins (1 / '1', True / 'True', None / 'None', [1] / '[1]'); quick additionally "
-    "sweeps every operator over operand pairs; non-trivial = at least 3 injected nodes were pulled"
+    "methods and slicing with channel-like components, applied to owners holding values from a pool (ints, bools, "
+    "strings, lists, tuples, sets, dicts, None, a float, a complex, a 2x2 matrix class for @), operands raw or other "
+    "channels/nodes, owners inside one of two workflows with equally labelled children, or parentless, already run or "
+    "not, chained on injected nodes, with exact repetitions (node vs channel form), near-identical twins (1 / '1', "
+    "True / 'True', None / 'None', [1] / '[1]', 1 / True / 1.0) and in-process pickle round trips of the parents "
+    "between expressions; the generator evaluates every candidate expression in Python and steers about 85 % of them "
+    "to valid ones, so that values and not only exceptions are compared; a sweep covers every operator in every "
+    "operand form inside and outside a parent; thorough additionally enumerates every binary operator over all pairs "
+    "of a 14-value pool and every unary operator over the whole pool.  non-trivial = at least 3 injected nodes were "
+    "compared against Python and at least one of them yielded a value"
 )
 TRUSTED = [
-    "model Inject transcribes _other_label/_get_injection_label/_node_injection/__getitem__ and the operator table; "
-    "str()/repr()/type name of raw operands are read off the real objects and fed to the model; hash is modelled by "
-    "interning (validated on the explored cases only)",
-    "NOT in Lean, differential only: the VALUE clause (value after pull equals the Python operator applied to the "
-    "values; raises what Python raises) — Python itself is the oracle, evaluated in the same interpreter",
+    "model Inject transcribes _other_key/_get_injection_label/_node_injection/__getitem__, the operator table of "
+    "injection.py, the node functions' operand order and input labels of nodes/standard.py and the Slice node's "
+    "function; str()/repr()/type qualname of raw operands are read off the real objects and fed to the model; hash is "
+    "modelled by interning (validated on the explored cases only); which slice components hold data / hold None is "
+    "observed on the real channels and fed to the model (it decides whether the Slice node runs and raises)",
+    "a class-level wrapper around Node.__init__ (calls the original) records the nodes an expression creates, so that "
+    "nodes lost to the caller (parentless + raised while auto-running) are still counted",
+    "NOT in Lean, differential only: what Python's operators compute (theorem C18_value is relative to an arbitrary "
+    "interpretation of them) — Python itself is the oracle, evaluated in the same interpreter",
 ]
 ASSUMPTIONS = [
-    "Python's hash does not collide on the explored labels and `injected_<Class>_<hash>` is unambiguous (HashOk)",
-    "channel operands are siblings of the owner (same parent) or all parentless, so scoped labels identify channels",
-    "type name + repr identify a raw operand (Coherent); values are not mutated between uses",
+    "Python's hash does not collide on the keys of the explored expressions (HashInjOn); nothing else is assumed "
+    "about it; class names of the operator table contain no underscore (proved: C18_table_clsOk)",
+    "channel operands are siblings of the owner (same parent) or all parentless, so scoped labels identify channels "
+    "(the library itself refuses to pull a data graph with non-sibling nodes)",
+    "type qualname + repr identify a raw operand (Coherent); values are not mutated between uses",
+    "reuse after pickling is checked within one interpreter process only: str hashes are salted per process, so labels "
+    "of injected nodes are not stable across interpreter sessions unless PYTHONHASHSEED is fixed",
 ]
 
 DUNDERS = ["getattr", "getitem", "lt", "le", "eq", "ne", "gt", "ge", "bool", "len", "contains", "add", "sub", "mul",
@@ -54,144 +78,389 @@ CLASS_OF = {  # what the property expects: the standard-library node implementin
 }
 
 INTS = ["0", "1", "2", "3", "-1", "7"]
-POOL = INTS + ["True", "False", '"1"', '"a"', '"ab"', '"True"', '"None"', '"[1]"', '"x_y"', '""', '"2"',
-               "[1]", "[1, 2]", '["1"]', "[]", "[0, 1, 2, 3, 4, 5]", "(1,)", "(1, 2)", "()", "{1}", "{1, 2}", "set()",
-               "None", '{1: "int", "1": "str"}', "2.5", "(3+4j)"]
+STRS = ['"1"', '"a"', '"ab"', '"True"', '"None"', '"[1]"', '"x_y"', '""', '"2"', '"a%sb"']
+LISTS = ["[1]", "[1, 2]", '["1"]', "[]", "[0, 1, 2, 3, 4, 5]"]
+TUPLES = ["(1,)", "(1, 2)", "()"]
+SETS = ["{1}", "{1, 2}", "set()"]
+MATS = ["M2(1, 2, 3, 4)", "M2(0, 1, 1, 0)"]
+NUMS = INTS + ["True", "False", "2.5", "1.0", "(3+4j)"]
+POOL = (INTS + ["True", "False"] + STRS + LISTS + TUPLES + SETS +
+        ["None", '{1: "int", "1": "str"}', "2.5", "1.0", "(3+4j)"] + MATS)
+SEQS = ["[0, 1, 2, 3, 4, 5]", "[1, 2]", '"x_y"', '"ab"', "(1, 2)", "[1]"]
+SMALL = ["0", "1", "-1", "2", "True", "2.5", '"1"', '"ab"', "[1]", "[1, 2]", "(1, 2)", "{1}", "None",
+         '{1: "int", "1": "str"}']
 TWIN = {"1": '"1"', '"1"': "1", "True": '"True"', '"True"': "True", "None": '"None"', '"None"': "None",
-        "[1]": '"[1]"', '"[1]"': "[1]", "2": '"2"', '"2"': "2"}
-ATTRS = ['"real"', '"imag"', '"upper"', '"nope"', '"numerator"', '"count"']
+        "[1]": '"[1]"', '"[1]"': "[1]", "2": '"2"', '"2"': "2", "1.0": "1", "0": "False", "False": "0"}
+ATTRS = ['"real"', '"imag"', '"upper"', '"nope"', '"numerator"', '"count"', '"denominator"', '"bit_length"',
+         '"lower"', '"keys"', '"conjugate"', '"index"', '"items"', '"a"']
+SLICE_LITS = ["slice(1, 3)", "slice(None, 2)", "slice(None, None, 2)", "slice(1, None)"]
+
+
+def _lit(s: str):
+    from .nodes_c18 import M2
+
+    return eval(s, {"M2": M2, "__builtins__": {"set": set, "slice": slice, "True": True, "False": False, "None": None}})
 
 
 # ----------------------------------------------------------------------------- generation
 
-
-def _operand(rng, refs, p_ref=0.3, dunder=None):
-    if dunder == "getattr":
-        return ["raw", rng.choice(ATTRS)]
-    if refs and rng.random() < p_ref and dunder != "rmul":
-        return ["ref", rng.choice(refs), rng.choice(["channel", "node"])]
-    if dunder in ("pow",):
-        return ["raw", rng.choice(["0", "1", "2", "3", '"a"', "None", "-1"])]  # keep numbers small
-    if dunder in ("mul", "rmul"):
-        return ["raw", rng.choice(["0", "1", "2", "3", '"ab"', "[1]", "None", "True", "(1, 2)", "-1"])]
-    return ["raw", rng.choice(POOL)]
+_TOO_BIG = ("big",)
 
 
-def gen_history(rng, n_ops, n_src=None):
-    n_src = n_src or rng.randint(2, 5)
-    sources = []
-    for i in range(n_src):
-        sources.append({"value": rng.choice(POOL), "ctx": "wf" if (i < 2 or rng.random() < 0.6) else "free",
-                        "ran": rng.random() < 0.6})
-    if not any(s["ctx"] == "free" for s in sources) and rng.random() < 0.7:
-        sources.append({"value": rng.choice(POOL), "ctx": "free", "ran": rng.random() < 0.5})
-    ops = []
-    n_inj = 0
-    inj_ctx = []  # context of injected node k
-    for _ in range(n_ops):
+def _kind(v):
+    if isinstance(v, (bool, int, float, complex)):
+        return "num"
+    return type(v).__name__
+
+
+def _kind_pool(v):
+    return {"num": NUMS, "str": STRS, "list": LISTS, "tuple": TUPLES, "set": SETS, "M2": MATS}.get(_kind(v), POOL)
+
+
+def _guard(v, d, args):
+    """refuse operations whose evaluation or result could be large"""
+    a = args[0] if args else None
+    num = (int, float, complex)
+    if d == "pow":
+        if isinstance(v, num) and isinstance(a, num):
+            return abs(v) <= 100 and abs(a) <= 6
+    if d in ("mul", "rmul"):
+        for p, q in ((v, a), (a, v)):
+            if isinstance(p, (str, list, tuple)) and isinstance(q, int) and (q > 6 or len(p) > 50):
+                return False
+    return True
+
+
+def _small(x):
+    try:
+        if isinstance(x, (int, float)) and not isinstance(x, bool):
+            return abs(x) <= 10 ** 7 or x != x
+        if isinstance(x, complex):
+            return abs(x) <= 10 ** 7
+        if isinstance(x, (str, list, tuple, set, dict)):
+            return len(x) <= 300
+    except Exception:  # noqa: BLE001
+        return True
+    return True
+
+
+def _steer_eval(oval, d, avals):
+    """Python's verdict for the generator: ("val", v) | ("exc",) | None (unknown operand) | _TOO_BIG"""
+    if oval is None or any(a is None for a in avals):
+        return None
+    if oval[0] != "val" or any(a[0] != "val" for a in avals):
+        return None
+    v, args = oval[1], [a[1] for a in avals]
+    if not _guard(v, d, args):
+        return _TOO_BIG
+    try:
+        res = _python(v, d, args)
+    except Exception:  # noqa: BLE001
+        return ("exc",)
+    return ("val", res) if _small(res) else _TOO_BIG
+
+
+def _smart_raw(rng, d, v):
+    """a raw operand literal that has a fair chance of making `v <d> operand` valid"""
+    if d == "getattr":
+        names = [a for a in ATTRS if hasattr(v, a[1:-1])]
+        return rng.choice(names) if names and rng.random() < 0.8 else rng.choice(ATTRS)
+    if d == "getitem":
+        if isinstance(v, dict) and v and rng.random() < 0.8:
+            return repr(rng.choice(list(v.keys())))
+        if isinstance(v, (str, list, tuple)) and rng.random() < 0.85:
+            if rng.random() < 0.3:
+                return rng.choice(SLICE_LITS)
+            return str(rng.randrange(-len(v), len(v))) if len(v) else "0"
+    if d == "contains" and isinstance(v, (list, tuple, set, dict)) and v and rng.random() < 0.5:
+        return repr(rng.choice(list(v)))
+    if d == "pow":
+        return rng.choice(["0", "1", "2", "3", "-1", "2.5", "None", '"a"', "True"])
+    if d in ("mul", "rmul"):
+        if isinstance(v, (str, list, tuple)):
+            return rng.choice(["0", "1", "2", "3", "True", "-1", "None", '"ab"'])
+        return rng.choice(NUMS + ['"ab"', "[1]", "(1, 2)", "None"])
+    if d == "mod" and isinstance(v, str):
+        return rng.choice(["1", '"x"', "(1,)", "None", "(1, 2)"])
+    if rng.random() < 0.7:
+        return rng.choice(_kind_pool(v))
+    return rng.choice(POOL)
+
+
+def _flip_forms(rng, op):
+    """the same expression in another surface form (node vs channel for the owner and for reference operands)"""
+    op = {**op, "owner_form": rng.choice(["channel", "node"]), "operands": [list(o) for o in op["operands"]]}
+    for o in op["operands"]:
+        if o[0] == "ref" and op["op"] != "rmul":
+            o[2] = rng.choice(["channel", "node"])
+    return op
+
+
+class _Gen:
+    def __init__(self, rng):
+        self.rng = rng
+        self.sources: list = []
+        self.ops: list = []
+        self.avail: list = []  # {"ref", "ctx", "val"}
+        self.op_val: list = []
+
+    def src(self, value, ctx, ran=None, label=None):
+        s = {"value": value, "ctx": ctx, "ran": self.rng.random() < 0.7 if ran is None else ran}
+        if label:
+            s["label"] = label
+        self.sources.append(s)
+        self.avail.append({"ref": ["src", len(self.sources) - 1], "ctx": ctx, "val": ("val", _lit(value))})
+
+    def val_of(self, ref):
+        for a in self.avail:
+            if a["ref"] == ref:
+                return a["val"]
+        return None
+
+    def ctx_of(self, ref):
+        for a in self.avail:
+            if a["ref"] == ref:
+                return a["ctx"]
+        return None
+
+    def eval_op(self, op):
+        oval = self.val_of(op["owner"])
+        avals = [("val", _lit(o[1])) if o[0] == "raw" else self.val_of(o[1]) for o in op["operands"]]
+        return _steer_eval(oval, op["op"], avals)
+
+    def push(self, op, res=None):
+        if op["op"] == "reload":
+            self.ops.append(op)
+            self.op_val.append(None)
+            return
+        res = self.eval_op(op) if res is None else res
+        self.ops.append(op)
+        self.op_val.append(res)
+        self.avail.append({"ref": ["op", len(self.ops) - 1], "ctx": self.ctx_of(op["owner"]),
+                           "val": res if res not in (None, _TOO_BIG) else None})
+
+    def operand(self, d, owner_val, cands, p_ref):
+        rng = self.rng
+        if d == "getattr":
+            return ["raw", _smart_raw(rng, d, owner_val)]
+        if cands and d != "rmul" and rng.random() < p_ref:
+            same = [c for c in cands if c["val"] and c["val"][0] == "val" and _kind(c["val"][1]) == _kind(owner_val)]
+            c = rng.choice(same if same and rng.random() < 0.6 else cands)
+            return ["ref", c["ref"], rng.choice(["channel", "node"])]
+        return ["raw", _smart_raw(rng, d, owner_val)]
+
+    def slice_op(self, cands):
+        rng = self.rng
+        seqs = [c for c in cands if c["val"] and c["val"][0] == "val" and isinstance(c["val"][1], (str, list, tuple))]
+        owner = rng.choice(seqs if seqs and rng.random() < 0.85 else cands)
+        ints = [c for c in cands if c["val"] and c["val"][0] == "val" and type(c["val"][1]) is int]
+        refs = ints if ints and rng.random() < 0.9 else cands
+        comps = []
+        for _ in range(3):
+            r = rng.random()
+            if r < 0.35:
+                comps.append(["raw", "None"])
+            elif r < 0.65:
+                comps.append(["raw", rng.choice(["0", "1", "2", "3", "-1", "4"])])
+            else:
+                comps.append(["ref", rng.choice(refs)["ref"], rng.choice(["channel", "node"])])
+        if not any(c[0] == "ref" for c in comps):
+            comps[rng.randrange(3)] = ["ref", rng.choice(refs)["ref"], rng.choice(["channel", "node"])]
+        return {"op": "slice", "owner": owner["ref"], "owner_form": rng.choice(["channel", "node"]), "operands": comps}
+
+    def fresh(self):
+        rng = self.rng
+        ctxs = sorted({a["ctx"] for a in self.avail if a["ctx"]})
+        weights = {"wf": 60, "wf2": 15, "free": 25}
+        ctx = rng.choices(ctxs, [weights[c] for c in ctxs])[0]
+        cands = [a for a in self.avail if a["ctx"] == ctx]
+        known = [a for a in cands if a["val"] and a["val"][0] == "val"]
+        want_valid = rng.random() < 0.85
+        best = None
+        for _outer in range(3):
+            d = "slice" if rng.random() < 0.12 else rng.choice(DUNDERS)
+            for _inner in range(6):
+                if d == "slice":
+                    op = self.slice_op(cands)
+                else:
+                    owner = rng.choice(known if known and rng.random() < 0.8 else cands)
+                    ov = owner["val"][1] if owner["val"] and owner["val"][0] == "val" else None
+                    opers = [] if d in UNARY else [self.operand(d, ov, cands, 0.3)]
+                    op = {"op": d, "owner": owner["ref"], "owner_form": rng.choice(["channel", "node"]),
+                          "operands": opers}
+                res = self.eval_op(op)
+                if res is _TOO_BIG:
+                    continue
+                best = (op, res)
+                if not want_valid or (res is not None and res[0] == "val"):
+                    return best
+        if best is None:
+            owner = rng.choice(cands)
+            best = ({"op": "bool", "owner": owner["ref"], "owner_form": "channel", "operands": []}, None)
+        return best
+
+    def step(self):
+        rng = self.rng
+        real = [j for j, o in enumerate(self.ops) if o["op"] != "reload"]
         r = rng.random()
-        if ops and r < 0.22:
-            # exact repetition (possibly in the other surface form)
-            j = rng.randrange(len(ops))
-            op = {**ops[j], "owner_form": rng.choice(["channel", "node"])}
-        elif ops and r < 0.38:
-            # near-identical twin of an earlier expression
-            j = rng.randrange(len(ops))
-            op = {**ops[j], "operands": [list(o) for o in ops[j]["operands"]]}
+        if real and r < 0.03:
+            self.push({"op": "reload"})
+        elif real and r < 0.23:
+            j = rng.choice(real)  # exact repetition (possibly in another surface form)
+            self.push(_flip_forms(rng, self.ops[j]), self.op_val[j] if self.op_val[j] is not _TOO_BIG else None)
+        elif real and r < 0.38:
+            j = rng.choice(real)  # near-identical twin of an earlier expression
+            op = _flip_forms(rng, self.ops[j])
             for o in op["operands"]:
                 if o[0] == "raw" and o[1] in TWIN:
                     o[1] = TWIN[o[1]]
                     break
             else:
-                if op["operands"] and op["operands"][0][0] == "raw":
-                    op["operands"][0][1] = rng.choice(POOL)
+                raws = [o for o in op["operands"] if o[0] == "raw"]
+                if raws and op["op"] not in ("pow", "mul", "rmul"):
+                    raws[0][1] = rng.choice(POOL)
+            res = self.eval_op(op)
+            if res is _TOO_BIG:
+                op, res = self.fresh()
+            self.push(op, res)
         else:
-            ctx = rng.choice(["wf", "wf", "wf", "free"])
-            cands = [["src", i] for i, s in enumerate(sources) if s["ctx"] == ctx] + \
-                    [["inj", k] for k, c in enumerate(inj_ctx) if c == ctx]
-            if not cands:
-                ctx = "wf"
-                cands = [["src", i] for i, s in enumerate(sources) if s["ctx"] == ctx]
-            owner = rng.choice(cands[: len([c for c in cands if c[0] == "src"])] if rng.random() < 0.6 else cands)
-            if rng.random() < 0.08:
-                comps = [_operand(rng, cands, 0.5) if rng.random() < 0.6 else ["raw", "None"] for _ in range(3)]
-                comps = [c if (c[0] == "ref" or c[1] in INTS + ["None"]) else ["raw", rng.choice(INTS)] for c in comps]
-                if not any(c[0] == "ref" for c in comps):
-                    comps[rng.randrange(3)] = ["ref", rng.choice(cands), "channel"]
-                op = {"op": "slice", "owner": owner, "owner_form": rng.choice(["channel", "node"]), "operands": comps}
-            else:
-                d = rng.choice(DUNDERS)
-                opers = [] if d in UNARY else [_operand(rng, cands, 0.3, d)]
-                op = {"op": d, "owner": owner, "owner_form": rng.choice(["channel", "node"]), "operands": opers}
-        ops.append(op)
-        # book-keeping of how many nodes exist at most (every op may create up to 2)
-        octx = sources[op["owner"][1]]["ctx"] if op["owner"][0] == "src" else inj_ctx[op["owner"][1]]
-        for _ in range(2 if op["op"] == "slice" else 1):
-            inj_ctx.append(octx)
-            n_inj += 1
-    return {"kind": "history", "sources": sources, "ops": ops}
+            op, res = self.fresh()
+            self.push(op, res)
 
 
-def _fix_refs(case):
-    """references to injected nodes must point to nodes that exist when the op runs: resolved at run time (a
-    reference beyond the nodes made so far is reduced modulo their number, or falls back to source 0)"""
-    return case
+def gen_history(rng, n_ops):
+    g = _Gen(rng)
+    g.src(rng.choice(SEQS), "wf")
+    g.src(rng.choice(INTS), "wf")
+    for _ in range(rng.randint(0, 2)):
+        g.src(rng.choice(POOL), "wf")
+    if rng.random() < 0.4:  # a second parent whose children carry the same labels
+        for i in range(rng.randint(1, 2)):
+            g.src(g.sources[i]["value"] if rng.random() < 0.5 else rng.choice(POOL), "wf2", label=f"s{i}")
+    if rng.random() < 0.6:
+        g.src(rng.choice(POOL), "free")
+        if rng.random() < 0.6:
+            g.src(rng.choice(INTS), "free")
+    for _ in range(n_ops):
+        g.step()
+    return {"kind": "history", "sources": g.sources, "ops": g.ops}
+
+
+def _sweep_case(rng, d):
+    """one operator in every operand form, inside and outside a parent"""
+    if d == "slice":
+        seq, a = rng.choice(SEQS), rng.choice(["0", "1", "2", "-1"])
+        b = rng.choice(["3", "4", "-1", "2"])
+        srcs = [{"value": seq, "ctx": "wf", "ran": rng.random() < 0.6}, {"value": a, "ctx": "wf", "ran": rng.random() < 0.7},
+                {"value": seq, "ctx": "free", "ran": True}, {"value": a, "ctx": "free", "ran": True}]
+        ops = []
+        for o, i in ((0, 1), (2, 3)):
+            ref = ["ref", ["src", i], rng.choice(["channel", "node"])]
+            forms = [[ref, ["raw", b], ["raw", "None"]], [ref, ["raw", b], ["raw", "None"]],
+                     [["raw", "None"], ref, ["raw", "None"]], [ref, ["raw", b], ref], [["raw", "0"], ["raw", b], ref]]
+            if o == 0:
+                forms += [[ref, ["raw", "None"], ["raw", "None"]], [["raw", "None"], ["raw", "None"], ref],
+                          [["raw", "None"], ["raw", b], ref]]
+            for comps in forms:
+                ops.append({"op": "slice", "owner": ["src", o], "owner_form": rng.choice(["channel", "node"]),
+                            "operands": [list(c) for c in comps]})
+        return {"kind": "history", "sources": srcs, "ops": ops}
+    want_valid = rng.random() < 0.8
+    v = o = None
+    for _ in range(40):
+        v = rng.choice(POOL)
+        o = None if d in UNARY else _smart_raw(rng, d, _lit(v))
+        res = _steer_eval(("val", _lit(v)), d, [] if o is None else [("val", _lit(o))])
+        if res is _TOO_BIG:
+            continue
+        if not want_valid or res[0] == "val":
+            break
+    else:
+        v, o = "1", (None if d in UNARY else ('"real"' if d == "getattr" else "1"))
+    srcs = [{"value": v, "ctx": "wf", "ran": rng.random() < 0.5}, {"value": o or "0", "ctx": "wf", "ran": True},
+            {"value": v, "ctx": "free", "ran": rng.random() < 0.5}, {"value": o or "0", "ctx": "free", "ran": True}]
+    ops = []
+    for own, other in ((0, 1), (2, 3)):
+        raw = [] if d in UNARY else [["raw", o]]
+        refd = raw if d in UNARY or d in ("rmul", "getattr") else [["ref", ["src", other], rng.choice(["channel", "node"])]]
+        ops.append({"op": d, "owner": ["src", own], "owner_form": "channel", "operands": raw})
+        ops.append({"op": d, "owner": ["src", own], "owner_form": "node", "operands": raw})
+        ops.append({"op": d, "owner": ["src", own], "owner_form": rng.choice(["channel", "node"]), "operands": refd})
+        if raw and o in TWIN and own == 0:
+            ops.append({"op": d, "owner": ["src", own], "owner_form": "node", "operands": [["raw", TWIN[o]]]})
+    return {"kind": "history", "sources": srcs, "ops": ops}
 
 
 def gen_cases(rng, tier):
-    n_hist = 260 if tier == "quick" else 2600
+    n_hist = 260 if tier == "quick" else 4000
     for i in range(n_hist):
         c = gen_history(rng, rng.randint(4, 14 if tier == "quick" else 24))
         c["id"] = f"{tier[0]}{i}"
         yield c
-    # every operator x operand pairs from the pool, both operand forms, inside and outside a parent
     n_pairs = 4 if tier == "quick" else 30
     k = 0
-    for d in DUNDERS:
+    for d in DUNDERS + ["slice"]:
         for _ in range(n_pairs):
-            srcs = [{"value": rng.choice(POOL), "ctx": "wf", "ran": rng.random() < 0.5},
-                    {"value": rng.choice(POOL), "ctx": "wf", "ran": True},
-                    {"value": rng.choice(POOL), "ctx": "free", "ran": rng.random() < 0.5},
-                    {"value": rng.choice(POOL), "ctx": "free", "ran": True}]
-            ops = []
-            for ctx, (o, other) in (("wf", (0, 1)), ("free", (2, 3))):
-                if d in UNARY:
-                    opers_raw, opers_ref = [], []
-                else:
-                    opers_raw = [_operand(rng, [], 0, d)]
-                    opers_ref = [["ref", ["src", other], rng.choice(["channel", "node"])]] if d not in ("rmul", "getattr") \
-                        else opers_raw
-                ops.append({"op": d, "owner": ["src", o], "owner_form": "channel", "operands": opers_raw})
-                ops.append({"op": d, "owner": ["src", o], "owner_form": "node", "operands": opers_raw})
-                ops.append({"op": d, "owner": ["src", o], "owner_form": "channel", "operands": opers_ref})
-            yield {"kind": "history", "id": f"{tier[0]}sweep{k}", "sources": srcs, "ops": ops}
+            c = _sweep_case(rng, d)
+            c["id"] = f"{tier[0]}sweep{k}"
+            yield c
+            k += 1
+    if tier != "quick":
+        # small scope, exhaustively: every binary operator on every ordered pair of SMALL, every unary on POOL
+        k = 0
+        for d in DUNDERS:
+            if d in UNARY:
+                continue
+            for v in SMALL:
+                operands = ATTRS if d == "getattr" else SMALL
+                ops = [{"op": d, "owner": ["src", 0], "owner_form": "channel", "operands": [["raw", o]]}
+                       for o in operands if _guard(_lit(v), d, [_lit(o)])]
+                yield {"kind": "history", "id": f"x{k}", "sources": [{"value": v, "ctx": "wf", "ran": True}], "ops": ops}
+                k += 1
+        for v in POOL:
+            ops = [{"op": d, "owner": ["src", 0], "owner_form": "node", "operands": []} for d in DUNDERS if d in UNARY]
+            yield {"kind": "history", "id": f"x{k}", "sources": [{"value": v, "ctx": "wf", "ran": True}], "ops": ops}
             k += 1
     yield {"kind": "malformed", "id": "m0",
            "lines": ["inj c0 add", "chan x 0 00", "chan 0 0 zz", "cfg old", "slice c0 c0", "frob",
-                     "chan 0 0 6c5f5f78", "inj c0 frob", "inj c0 add r:00", "inj c0 neg", "inj c7 neg", "chan 0 0 6c"],
-           "expect": ["bad-op"] * 6 + ["bad-op", "bad-op", "node 0 Negative 1 1", "bad-op", "bad-op"]}
+                     "chan 0 0 6c5f5f78", "inj c0 frob", "inj c0 add r:00", "inj c0 neg", "inj c7 neg", "chan 0 0 6c",
+                     "inj c0 neg c0", "slice c0 c0 c0 c0 VX", "slice c0 c0 c0 c0 VVV", "cfg slice lax", "reload x"],
+           "expect": ["bad-op"] * 6 + ["bad-op", "bad-op", "node 0 Negative 1 1 obj", "bad-op", "bad-op",
+                                       "bad-op", "bad-op", "slice 1 1 2 1 3", "bad-op", "bad-op"]}
 
 
 def corpus():
-    # P10: x[1] / x["1"] and a + 1 / a + "1" share a node on the pinned tree
+    # P10 / KF-C18-1: x[1] / x["1"] and a + 1 / a + "1" shared a node on the originally pinned tree
     yield {"kind": "history", "id": "c-getitem", "sources": [{"value": '{1: "int", "1": "str"}', "ctx": "wf", "ran": True}],
            "ops": [{"op": "getitem", "owner": ["src", 0], "owner_form": "node", "operands": [["raw", "1"]]},
                    {"op": "getitem", "owner": ["src", 0], "owner_form": "node", "operands": [["raw", '"1"']]}]}
     yield {"kind": "history", "id": "c-add", "sources": [{"value": "3", "ctx": "wf", "ran": True}],
            "ops": [{"op": "add", "owner": ["src", 0], "owner_form": "node", "operands": [["raw", "1"]]},
                    {"op": "add", "owner": ["src", 0], "owner_form": "channel", "operands": [["raw", '"1"']]}]}
-    # reuse, chaining, parentless, invalid operation
+    yield {"kind": "history", "id": "c-rmul", "sources": [{"value": "3", "ctx": "wf", "ran": True}],
+           "ops": [{"op": "rmul", "owner": ["src", 0], "owner_form": "node", "operands": [["raw", '"1"']]},
+                   {"op": "rmul", "owner": ["src", 0], "owner_form": "node", "operands": [["raw", "1"]]}]}
+    yield {"kind": "history", "id": "c-slice-none",
+           "sources": [{"value": "[0, 1, 2, 3, 4, 5]", "ctx": "wf", "ran": True}, {"value": "2", "ctx": "wf", "ran": True}],
+           "ops": [{"op": "slice", "owner": ["src", 0], "owner_form": "node",
+                    "operands": [["ref", ["src", 1], "node"], ["raw", "4"], ["raw", "None"]]},
+                   {"op": "slice", "owner": ["src", 0], "owner_form": "node",
+                    "operands": [["ref", ["src", 1], "node"], ["raw", "4"], ["raw", '"None"']]}]}
+    # reuse, chaining, parentless, invalid operation, reuse after a pickle round trip, equal labels in two parents
     yield {"kind": "history", "id": "c-mix",
            "sources": [{"value": "3", "ctx": "wf", "ran": False}, {"value": "4", "ctx": "wf", "ran": True},
-                       {"value": "5", "ctx": "free", "ran": True}],
+                       {"value": "5", "ctx": "free", "ran": True}, {"value": "3", "ctx": "wf2", "ran": True, "label": "s0"}],
            "ops": [{"op": "add", "owner": ["src", 0], "owner_form": "node", "operands": [["ref", ["src", 1], "node"]]},
                    {"op": "add", "owner": ["src", 0], "owner_form": "channel", "operands": [["ref", ["src", 1], "channel"]]},
-                   {"op": "mul", "owner": ["inj", 0], "owner_form": "node", "operands": [["raw", "2"]]},
-                   {"op": "mul", "owner": ["inj", 0], "owner_form": "node", "operands": [["raw", "2"]]},
+                   {"op": "mul", "owner": ["op", 0], "owner_form": "node", "operands": [["raw", "2"]]},
+                   {"op": "reload"},
+                   {"op": "mul", "owner": ["op", 0], "owner_form": "node", "operands": [["raw", "2"]]},
                    {"op": "sub", "owner": ["src", 1], "owner_form": "node", "operands": [["raw", '"a"']]},
                    {"op": "neg", "owner": ["src", 2], "owner_form": "node", "operands": []},
-                   {"op": "neg", "owner": ["src", 2], "owner_form": "node", "operands": []}]}
-    # slicing with a channel component: closed and open-ended
+                   {"op": "neg", "owner": ["src", 2], "owner_form": "node", "operands": []},
+                   {"op": "neg", "owner": ["src", 0], "owner_form": "node", "operands": []},
+                   {"op": "neg", "owner": ["src", 3], "owner_form": "node", "operands": []}]}
+    # slicing with a channel component: closed (reused), and the open-ended forms (KF-C18-2)
     yield {"kind": "history", "id": "c-slice",
            "sources": [{"value": "[0, 1, 2, 3, 4, 5]", "ctx": "wf", "ran": True}, {"value": "2", "ctx": "wf", "ran": True}],
            "ops": [{"op": "slice", "owner": ["src", 0], "owner_form": "node",
@@ -202,11 +471,23 @@ def corpus():
            "sources": [{"value": "[0, 1, 2, 3, 4, 5]", "ctx": "wf", "ran": True}, {"value": "2", "ctx": "wf", "ran": True}],
            "ops": [{"op": "slice", "owner": ["src", 0], "owner_form": "node",
                     "operands": [["ref", ["src", 1], "node"], ["raw", "None"], ["raw", "None"]]}]}
+    yield {"kind": "history", "id": "c-openslice-lazy",
+           "sources": [{"value": '"x_y"', "ctx": "wf", "ran": False}, {"value": "2", "ctx": "wf", "ran": False}],
+           "ops": [{"op": "slice", "owner": ["src", 0], "owner_form": "node",
+                    "operands": [["raw", "None"], ["ref", ["src", 1], "node"], ["ref", ["src", 1], "node"]]},
+                   {"op": "slice", "owner": ["src", 0], "owner_form": "channel",
+                    "operands": [["raw", "None"], ["raw", "None"], ["ref", ["src", 1], "channel"]]}]}
+    yield {"kind": "history", "id": "c-openslice-free",
+           "sources": [{"value": "(1, 2)", "ctx": "free", "ran": True}, {"value": "1", "ctx": "free", "ran": True}],
+           "ops": [{"op": "slice", "owner": ["src", 0], "owner_form": "channel",
+                    "operands": [["ref", ["src", 1], "channel"], ["raw", "None"], ["raw", "None"]]},
+                   {"op": "len", "owner": ["src", 0], "owner_form": "channel", "operands": []}]}
 
 
 # ----------------------------------------------------------------------------- implementation side
 
 _VARIANT = None
+_CREATED: list = []
 
 
 def _variant():
@@ -217,8 +498,33 @@ def _variant():
 
         wf = Workflow("probe", autoload=None)
         wf.l = std.UserInput({1: "int", "1": "str"})
-        _VARIANT = "pinned" if wf.l[1] is wf.l["1"] else "repaired"
+        printer = "pinned" if wf.l[1] is wf.l["1"] else "repaired"
+        try:
+            std.Slice.node_function(1, None, None)
+            sl = "python"
+        except ValueError:
+            sl = "strict"
+        _VARIANT = {"printer": printer, "slice": sl}
     return _VARIANT
+
+
+def _install_hook():
+    """record every node instance at the start of its construction (the original __init__ is called unchanged)"""
+    import functools
+
+    from pyiron_workflow.node import Node
+
+    if getattr(Node.__init__, "_c18_hook", False):
+        return
+    orig = Node.__init__
+
+    @functools.wraps(orig)
+    def __init__(self, *a, **k):
+        _CREATED.append(self)
+        return orig(self, *a, **k)
+
+    __init__._c18_hook = True
+    Node.__init__ = __init__
 
 
 def _apply(x, d, args):
@@ -306,71 +612,127 @@ def _python(v, d, args):
 
 
 def _same(a, b):
+    import types
+
+    if isinstance(a, types.BuiltinMethodType) and isinstance(b, types.BuiltinMethodType):
+        # bound builtin methods compare their receivers by identity; a pickle round trip copies the receiver
+        return a.__name__ == b.__name__ and _same(a.__self__, b.__self__)
     try:
-        return type(a) is type(b) and (a == b or (a != a and b != b))
+        return type(a) is type(b) and bool(a == b or (a != a and b != b))
     except Exception:  # noqa: BLE001
         return False
+
+
+def _hx(s: str) -> str:
+    return s.encode().hex() or "-"
 
 
 def run_impl(case):
     variant = _variant()
     if case["kind"] == "malformed":
         return {"obs": list(case["expect"]), "variant": variant, "ops": [], "stats": {"malformed": 1}}
+    import pickle
+
     import pyiron_workflow.nodes.standard as std
     from pyiron_workflow import Workflow
+    from pyiron_workflow.channels import NOT_DATA
 
-    wf = Workflow("w", autoload=None)
-    src_nodes, src_vals = [], []
+    _install_hook()
+    wfs = {"wf": Workflow("w", autoload=None), "wf2": Workflow("w2", autoload=None)}
+    par_id = {"wf": "0", "wf2": "1", "free": "-"}
+    src_nodes, src_vals, src_ctx = [], [], []
     for i, s in enumerate(case["sources"]):
-        v = eval(s["value"])
-        n = std.UserInput(v, label=f"s{i}", parent=wf if s["ctx"] == "wf" else None)
+        v = _lit(s["value"])
+        n = std.UserInput(v, label=s.get("label") or f"s{i}", parent=wfs.get(s["ctx"]))
         n.recovery = None
         if s["ran"]:
             n.run()
         src_nodes.append(n)
         src_vals.append(v)
-    inj_nodes: list = []  # injected node objects (None when lost)
+        src_ctx.append(s["ctx"])
+    src_info = [[par_id[c], n.outputs.user_input.scoped_label, n.label] for c, n in zip(src_ctx, src_nodes)]
+    inj_nodes: list = []  # every node made by an expression, in creation order (= the model's node ids)
     inj_ctx: list = []
     inj_exp: list = []  # expected value of node k: ("val", v) | ("exc", name) | None (undefined)
     index_of: dict[int, int] = {}
+    op_node: list = []  # op index -> k of its result node | None
     obs, rec = [], []
     stats: dict = {}
 
+    def bump(key, n=1):
+        stats[key] = stats.get(key, 0) + n
+
+    def count(ctx):
+        return str(len(wfs[ctx].children)) if ctx in wfs else "-"
+
     def resolve(ref):
-        """(object in node form, channel, expected value, channel identity, model token)"""
+        """(object in node form, channel, expected value, identity, model token, context)"""
         if ref[0] == "src":
             i = ref[1] % len(src_nodes)
             n = src_nodes[i]
-            return n, n.outputs.user_input, ("val", src_vals[i]), ("src", i), f"c{i}"
-        if not inj_nodes:
-            return resolve(["src", 0])
-        k = ref[1] % len(inj_nodes)
-        n = inj_nodes[k]
-        if n is None:
-            return resolve(["src", 0])
-        return n, n.channel, inj_exp[k], ("inj", k), f"n{k}"
+            return n, n.outputs.user_input, ("val", src_vals[i]), ("src", i), f"c{i}", src_ctx[i]
+        j = ref[1]
+        if 0 <= j < len(op_node) and op_node[j] is not None:
+            k = op_node[j]
+            n = inj_nodes[k]
+            return n, n.channel, inj_exp[k], ("node", k), f"n{k}", inj_ctx[k]
+        return resolve(["src", 0])
+
+    def register(made, ctx):
+        for m in made:
+            m.recovery = None
+            index_of[id(m)] = len(inj_nodes)
+            inj_nodes.append(m)
+            inj_ctx.append(ctx)
+            inj_exp.append(None)
 
     for op in case["ops"]:
         d = op["op"]
-        onode, ochan, oexp, oid, otok = resolve(op["owner"])
-        ctx = "wf" if onode.parent is wf else "free"
+        if d == "reload":
+            op_node.append(None)
+            try:
+                new = {c: pickle.loads(pickle.dumps(w)) for c, w in wfs.items()}
+            except Exception as e:  # noqa: BLE001
+                obs.append(f"noreload {type(e).__name__}")
+                rec.append({"d": d, "injected": False, "exp": None, "raised": type(e).__name__, "reload": False})
+                continue
+            wfs = new
+            for i, c in enumerate(src_ctx):
+                if c in wfs:
+                    src_nodes[i] = wfs[c].children[src_nodes[i].label]
+            index_of.clear()
+            for k, c in enumerate(inj_ctx):
+                if c in wfs:
+                    inj_nodes[k] = wfs[c].children[inj_nodes[k].label]
+                index_of[id(inj_nodes[k])] = k
+            for w in wfs.values():
+                for ch in w.children.values():
+                    ch.recovery = None
+            obs.append(f"reload {count('wf')} {count('wf2')}")
+            rec.append({"d": d, "injected": False, "exp": None, "raised": None, "reload": True, "line": "reload"})
+            bump("op:reload")
+            continue
+        onode, ochan, oexp, oid, otok, ctx = resolve(op["owner"])
         x = onode if op["owner_form"] == "node" else ochan
-        args, arg_exp, arg_ids, arg_toks = [], [], [], []
+        args, arg_exp, arg_ids, arg_toks, flags = [], [], [], [], ""
         for o in op["operands"]:
             if o[0] == "raw":
-                v = eval(o[1])
+                v = _lit(o[1])
                 args.append(v)
                 arg_exp.append(("val", v))
                 arg_ids.append(("raw", type(v).__qualname__, repr(v)))
-                arg_toks.append("r:" + ":".join((s.encode().hex() or "-") for s in (type(v).__qualname__, str(v), repr(v))))
+                arg_toks.append("r:" + ":".join(_hx(s) for s in (type(v).__qualname__, str(v), repr(v))))
+                flags += "N" if v is None else "V"
             else:
-                n2, c2, e2, id2, t2 = resolve(o[1])
-                if (n2.parent is wf) != (ctx == "wf"):  # operand from the other context: use the owner itself
+                n2, c2, e2, id2, t2, ctx2 = resolve(o[1])
+                if ctx2 != ctx:  # operand from another parent: use the owner itself
                     n2, c2, e2, id2, t2 = onode, ochan, oexp, oid, otok
                 args.append(n2 if o[2] == "node" else c2)
                 arg_exp.append(e2)
                 arg_ids.append(("ref",) + id2)
                 arg_toks.append(t2)
+                cv = c2.value
+                flags += "U" if cv is NOT_DATA else ("N" if cv is None else "V")
         # python's own verdict on the underlying values
         if oexp is None or any(e is None for e in arg_exp) or oexp[0] == "exc" or any(e[0] == "exc" for e in arg_exp):
             exp = None
@@ -381,133 +743,118 @@ def run_impl(case):
                 exp = ("exc", type(e).__name__)
         # a failed pull of an invalid expression leaves the *workflow* marked failed (C06's subject); clear the flag
         # as a user would, so that one invalid expression does not shadow the next expressions' values
-        wf.failed = False
-        before = len(wf.children)
+        for w in wfs.values():
+            w.failed = False
+        before = count(ctx)
         raised = None
         node = None
+        _CREATED.clear()
         try:
             node = _apply(x, d, args)
         except Exception as e:  # noqa: BLE001
             raised = type(e).__name__
-        after = len(wf.children)
-        r: dict = {"d": d, "ctx": ctx, "expr": [list(oid), d, [list(a) for a in arg_ids]], "model": [otok, arg_toks],
-                   "raised": raised, "exp": None if exp is None else [exp[0], exp[1] if exp[0] == "exc" else repr(exp[1])]}
-        made = []  # nodes made by this op, in creation order
-        if ctx == "wf":
-            made = list(wf.children.values())[before:after]
-        elif node is not None:
-            made = [node] if d != "slice" else [node.inputs.item.connections[0].owner, node]
-        elif raised is not None:
-            made = [None] if d != "slice" else None  # a lost node (cannot tell for a slice how many were made)
-        if made is None or (raised is not None and node is None and ctx == "wf" and not made):
-            # the expression raised without injecting anything
+        made = list(_CREATED)
+        _CREATED.clear()
+        r: dict = {"d": d, "ctx": ctx, "expr": [ctx, list(oid), d, [list(a) for a in arg_ids]],
+                   "toks": arg_toks, "raised": raised, "n_made": len(made),
+                   "exp": None if exp is None else [exp[0], exp[1] if exp[0] == "exc" else repr(exp[1])],
+                   "count_before": before}
+        if d == "slice":
+            # open-ended in Python's terms (by the component values), or as the new Slice node sees it when it
+            # auto-runs: a start/step channel without data yet shows the input's default None
+            nones = [e is not None and e[0] == "val" and e[1] is None for e in arg_exp]
+            seen = [flags[0] in "NU", flags[1] == "N", flags[2] in "NU"]
+            r["open_ended"] = bool(nones[1] or (nones[0] and not nones[2]) or seen[1] or (seen[0] and not seen[2]))
+        register(made, ctx)
+        r["count_after"] = count(ctx)
+        if node is None and not made:
+            # the expression raised without making any node
             r["injected"] = False
             obs.append(f"noinject {raised}")
             rec.append(r)
+            op_node.append(None)
             continue
         r["injected"] = True
-        for m in made:
-            if m is not None:
-                m.recovery = None
-                index_of[id(m)] = len(inj_nodes)
-            inj_nodes.append(m)
-            inj_ctx.append(ctx)
-            inj_exp.append(None)
-        if node is None and made and made[-1] is not None and ctx == "wf":
-            node = made[-1]  # created, then raised while auto-running
-        k = index_of.get(id(node)) if node is not None else len(inj_nodes) - 1
-        new = 1 if (node is None or any(m is node for m in made)) else 0
-        cls = type(node).__name__ if node is not None else "?"
-        cnt = str(len(wf.children)) if ctx == "wf" else "-"
-        r.update({"k": k, "new": new, "cls": cls, "count_before": before, "count_after": after})
         if d == "slice":
-            snode = node.inputs.item.connections[0].owner if node is not None else None
-            ks = index_of.get(id(snode)) if snode is not None else None
-            news = 1 if any(m is snode for m in made) else 0
-            r.update({"ks": ks, "news": news})
-            obs.append(f"slice {ks} {news} {k} {new} {cnt}")
-        else:
-            obs.append(f"node {k} {cls} {new} {cnt}")
-        # the value, evaluated once per node (at its creation)
-        if new:
-            got = None
-            if raised is not None:
+            r["line"] = " ".join(["slice", otok, *arg_toks, flags])
+            g = node if node is not None else (made[-1] if type(made[-1]).__name__ == "GetItem" else None)
+            if g is None:
+                # the new Slice node raised while auto-running: GetItem was never reached
+                ks = index_of[id(made[0])]
+                r.update({"k": None, "ks": ks, "new": 1, "cls": "-"})
+                obs.append(f"slice {ks} 1 - - {count(ctx)}")
                 got = ("exc", raised)
+                result_new = True
             else:
-                try:
-                    got = ("val", node.pull())
-                    stats["pulled"] = stats.get("pulled", 0) + 1
-                except Exception as e:  # noqa: BLE001
-                    got = ("exc", type(e).__name__)
+                snode = g.inputs.item.connections[0].owner
+                ks, k = index_of.get(id(snode)), index_of.get(id(g))
+                news, new = int(any(m is snode for m in made)), int(any(m is g for m in made))
+                r.update({"k": k, "ks": ks, "new": new, "news": news, "cls": type(g).__name__})
+                obs.append(f"slice {ks} {news} {k} {new} {count(ctx)}")
+                node, result_new, got = g, bool(new), None
+        else:
+            r["line"] = " ".join(["inj", otok, d, *arg_toks])
+            if node is None:
+                node = made[-1]  # created, then raised while auto-running
+            k = index_of.get(id(node))
+            new = int(any(m is node for m in made))
+            r.update({"k": k, "new": new, "cls": type(node).__name__})
+            obs.append(f"node {k} {type(node).__name__} {new} {count(ctx)} {','.join(node.inputs.labels)}")
+            result_new, got = bool(new), None
+        op_node.append(r["k"])
+        # the value, evaluated once per node (at its creation)
+        if result_new:
+            if got is None:
+                if raised is not None:
+                    got = ("exc", raised)
+                else:
+                    try:
+                        got = ("val", node.pull())
+                        bump("pulled")
+                    except Exception as e:  # noqa: BLE001
+                        got = ("exc", type(e).__name__)
             r["got"] = [got[0], got[1] if got[0] == "exc" else repr(got[1])]
             if exp is not None:
                 r["value_ok"] = (got[0] == exp[0]) and (got[1] == exp[1] if got[0] == "exc" else _same(got[1], exp[1]))
+                bump("cmp")
+                bump(f"cmp:{exp[0]}")
             # downstream expectations are only defined on top of a value the node really holds
-            inj_exp[k] = exp if (exp is not None and exp[0] == "val" and r.get("value_ok")) else None
-            stats[f"res:{got[0]}"] = stats.get(f"res:{got[0]}", 0) + 1
-        stats[f"op:{d}"] = stats.get(f"op:{d}", 0) + 1
-        stats[f"new:{new}"] = stats.get(f"new:{new}", 0) + 1
+            if r["k"] is not None:
+                inj_exp[r["k"]] = exp if (exp is not None and exp[0] == "val" and r.get("value_ok")) else None
+            bump(f"res:{got[0]}")
+        bump(f"op:{d}")
+        bump(f"ctx:{ctx}")
+        bump(f"new:{int(result_new)}")
         rec.append(r)
-    return {"obs": obs, "variant": variant, "ops": rec, "stats": stats,
-            "src": [[s["ctx"], src_nodes[i].outputs.user_input.scoped_label, src_nodes[i].label]
-                    for i, s in enumerate(case["sources"])]}
+    return {"obs": obs, "variant": variant, "ops": rec, "stats": stats, "src": src_info}
 
 
 def nontrivial(case, r):
-    return (r.get("stats") or {}).get("pulled", 0) >= 3
+    s = r.get("stats") or {}
+    return s.get("cmp", 0) >= 3 and s.get("res:val", 0) >= 1
 
 
 # ----------------------------------------------------------------------------- model side
-
-
-def _hx(s: str) -> str:
-    return s.encode().hex() or "-"
 
 
 def model_input(case, impl=None):
     if case["kind"] == "malformed":
         return list(case["lines"])
     impl = impl or {}
-    lines = [f"cfg {impl.get('variant', 'pinned')}"]
-    for i, (ctx, scoped, label) in enumerate(impl.get("src", [])):
-        lines.append(f"chan {i} {'0' if ctx == 'wf' else '-'} {_hx(scoped)}")
-        if ctx == "wf":
-            lines.append(f"child 0 {_hx(label)}")
+    variant = impl.get("variant") or {"printer": "repaired", "slice": "strict"}
+    lines = [f"cfg {variant['printer']}", f"cfg slice {variant['slice']}"]
+    for i, (par, scoped, label) in enumerate(impl.get("src", [])):
+        lines.append(f"chan {i} {par} {_hx(scoped)}")
+        if par != "-":
+            lines.append(f"child {par} {_hx(label)}")
     for r in impl.get("ops", []):
-        if not r.get("injected"):
-            continue
-        otok, atoks = r["model"]
-        if r["d"] == "slice":
-            lines.append(" ".join(["slice", otok, *atoks]))
-        else:
-            lines.append(" ".join(["inj", otok, r["d"], *atoks]))
+        if r.get("line"):
+            lines.append(r["line"])
     return lines
 
 
 def corr_view(case, impl):
-    return [o for o in impl["obs"] if not o.startswith("noinject")]
-
-
-def diff(case, impl, model):
-    """default comparison, except that a node lost to the caller (parentless + raised while auto-running) has an
-    unobservable class on the implementation side"""
-    from .engine import default_diff
-
-    view = corr_view(case, impl)
-    model = list(model)
-    for i, (a, b) in enumerate(zip(view, model)):
-        if " ? " in a:
-            w = b.split(" ")
-            if len(w) == 5 and w[0] == "node":
-                w[2] = "?"
-                model[i] = " ".join(w)
-
-    class _M:
-        @staticmethod
-        def corr_view(_c, _i):
-            return view
-
-    return default_diff(_M, case, impl, model)
+    return [o for o in impl["obs"] if not o.startswith(("noinject", "noreload"))]
 
 
 # ----------------------------------------------------------------------------- oracle (independent of the model)
@@ -519,73 +866,8 @@ def _f(clause, detail, **facts):
     return {"clause": clause, "detail": detail, "signature": sig}
 
 
-def _open_slice(expr):
-    comps = expr[2]
-    none = [c[0] == "raw" and c[1] == "NoneType" for c in comps]
-    start, stop, step = none
-    return (not start and stop) or (start and not step) or (start and stop)
-
-
-def oracle(case, r):
-    if case["kind"] == "malformed":
-        return []
-    fails = []
-    seen: dict[str, tuple] = {}  # expression -> (node, op index)   [inside the workflow only]
-    owner_of: dict[int, tuple] = {}  # node -> (expression, op index)
-    for i, o in enumerate(r.get("ops", [])):
-        if not o.get("injected"):
-            # the expression raised before any node was made: then Python must raise too
-            if o["exp"] is not None and o["exp"][0] == "val":
-                fails.append(_f("raised-instead-of-node", f"op #{i} {o['expr']}: raised {o['raised']} where Python "
-                                f"gives {o['exp'][1]}", trigger=o["d"]))
-            continue
-        d = o["d"]
-        where = f"op #{i} {o['expr']}"
-        # the operator table
-        if o["cls"] != "?" and d != "slice" and o["cls"] != CLASS_OF[d]:
-            fails.append(_f("wrong-class", f"{where}: injected a {o['cls']}, expected {CLASS_OF[d]}", trigger=d))
-        if d == "slice" and o["cls"] not in ("GetItem", "?"):
-            fails.append(_f("wrong-class", f"{where}: injected a {o['cls']}, expected GetItem", trigger=d))
-        # the value
-        if o.get("new") and o.get("value_ok") is False:
-            facts = {"trigger": d}
-            if d == "slice":
-                facts["open_ended"] = bool(_open_slice(o["expr"]))
-            fails.append(_f("value-mismatch", f"{where}: Python gives {o['exp']}, the node gives {o.get('got')}", **facts))
-        # identity (inside a parent)
-        if o["ctx"] == "wf" and o.get("k") is not None:
-            key = repr(o["expr"])
-            k = o["k"]
-            if key in seen:
-                k0, j = seen[key]
-                if k0 != k:
-                    fails.append(_f("not-reused", f"{where}: same expression as op #{j} but node {k} instead of {k0}", trigger=d))
-                elif o["count_after"] != o["count_before"]:
-                    fails.append(_f("count-changed", f"{where}: repeated expression changed the number of children "
-                                    f"{o['count_before']} -> {o['count_after']}", trigger=d))
-            else:
-                if k in owner_of and owner_of[k][0] != key:
-                    e0, j = owner_of[k]
-                    a, b = r["ops"][j]["expr"], o["expr"]
-                    coll = "other"
-                    if a[0] == b[0] and a[1] == b[1] and len(a[2]) == len(b[2]):
-                        diffs = [(x, y) for x, y in zip(a[2], b[2]) if x != y]
-                        raws = case_raw_strs(r, j, i)
-                        if diffs and all(x[0] == "raw" and y[0] == "raw" for x, y in diffs) and raws:
-                            coll = "operand-str"
-                    fails.append(_f("shared-node", f"{where} was handed node {k}, which belongs to the different "
-                                    f"expression of op #{j} {a} (value {r['ops'][j].get('got')}, Python gives {o['exp']})",
-                                    trigger=d, collision=coll))
-                seen[key] = (k, i)
-                owner_of.setdefault(k, (key, i))
-        if fails:
-            break
-    return fails[:1]
-
-
-def case_raw_strs(r, j, i):
-    """True iff the raw operands of ops j and i print (str) identically position by position"""
-    ta, tb = r["ops"][j]["model"][1], r["ops"][i]["model"][1]
+def _same_strs(ta, tb):
+    """True iff the raw operands print (str) identically position by position and the others are the same channels"""
     if len(ta) != len(tb):
         return False
     for x, y in zip(ta, tb):
@@ -597,12 +879,99 @@ def case_raw_strs(r, j, i):
     return True
 
 
+def oracle(case, r):
+    if case["kind"] == "malformed":
+        return []
+    fails = []
+    seen: dict[str, tuple] = {}  # expression -> (node, op index)   [inside a parent only]
+    owner_of: dict[tuple, tuple] = {}  # (parent, node) -> (expression, op index)
+    for i, o in enumerate(r.get("ops", [])):
+        d = o["d"]
+        if d == "reload":
+            continue
+        where = f"op #{i} {o['expr']}"
+        if not o.get("injected"):
+            # the expression raised before any node was made: then Python must raise too
+            if o["exp"] is not None and o["exp"][0] == "val":
+                fails.append(_f("raised-instead-of-node", f"{where}: raised {o['raised']} where Python "
+                                f"gives {o['exp'][1]}", trigger=d))
+                break
+            continue
+        # the operator table
+        if d != "slice" and o["cls"] != CLASS_OF[d]:
+            fails.append(_f("wrong-class", f"{where}: injected a {o['cls']}, expected {CLASS_OF[d]}", trigger=d))
+        if d == "slice" and o["cls"] not in ("GetItem", "-"):
+            fails.append(_f("wrong-class", f"{where}: injected a {o['cls']}, expected GetItem", trigger=d))
+        # the value
+        if o.get("value_ok") is False:
+            facts = {"trigger": d}
+            if d == "slice":
+                facts["open_ended"] = bool(o.get("open_ended"))
+            fails.append(_f("value-mismatch", f"{where}: Python gives {o['exp']}, the node gives {o.get('got')}", **facts))
+        # identity (inside a parent)
+        if o["ctx"] != "free" and o.get("k") is not None:
+            key = repr(o["expr"])
+            k = o["k"]
+            if key in seen:
+                k0, j = seen[key]
+                if k0 != k:
+                    fails.append(_f("not-reused", f"{where}: same expression as op #{j} but node {k} instead of {k0}", trigger=d))
+                elif o["count_after"] != o["count_before"]:
+                    fails.append(_f("count-changed", f"{where}: repeated expression changed the number of children "
+                                    f"{o['count_before']} -> {o['count_after']}", trigger=d))
+            else:
+                if (o["ctx"], k) in owner_of:
+                    e0, j = owner_of[(o["ctx"], k)]
+                    a, b = r["ops"][j]["expr"], o["expr"]
+                    coll = "other"
+                    if a[:3] == b[:3] and _same_strs(r["ops"][j]["toks"], o["toks"]):
+                        coll = "operand-str"
+                    fails.append(_f("shared-node", f"{where} was handed node {k}, which belongs to the different "
+                                    f"expression of op #{j} {a} (value {r['ops'][j].get('got')}, Python gives {o['exp']})",
+                                    trigger=d, collision=coll))
+                elif not o.get("new"):
+                    fails.append(_f("shared-node", f"{where}: first occurrence of the expression was handed the existing "
+                                    f"node {k}", trigger=d, collision="unknown-owner"))
+                seen[key] = (k, i)
+                owner_of.setdefault((o["ctx"], k), (key, i))
+        if fails:
+            break
+    return fails[:1]
+
+
+def _reref(ref, i, repl):
+    if ref[0] == "op":
+        if ref[1] == i:
+            return list(repl)
+        if ref[1] > i:
+            return ["op", ref[1] - 1]
+    return list(ref)
+
+
 def shrink_candidates(case):
     if case["kind"] == "malformed":
         return
     ops = case["ops"]
-    for i in range(len(ops)):
-        yield {**case, "ops": ops[:i] + ops[i + 1:]}
+    for i in range(len(ops) - 1, -1, -1):
+        repl = ops[i].get("owner", ["src", 0])
+        rest = []
+        for o in ops[:i] + ops[i + 1:]:
+            if o["op"] == "reload":
+                rest.append(o)
+                continue
+            rest.append({**o, "owner": _reref(o["owner"], i, repl),
+                         "operands": [x if x[0] == "raw" else ["ref", _reref(x[1], i, repl), x[2]] for x in o["operands"]]})
+        yield {**case, "ops": rest}
     for i in range(len(ops)):
         if ops[i].get("owner_form") == "channel":
             yield {**case, "ops": ops[:i] + [{**ops[i], "owner_form": "node"}] + ops[i + 1:]}
+    used = {0}
+    for o in ops:
+        if o["op"] == "reload":
+            continue
+        for ref in [o["owner"]] + [x[1] for x in o["operands"] if x[0] == "ref"]:
+            if ref[0] == "src":
+                used.add(ref[1])
+    n = len(case["sources"])
+    if n - 1 not in used and n > 1:
+        yield {**case, "sources": case["sources"][:-1]}
